@@ -115,6 +115,17 @@ func (l *Lowerer) call(ce *ast.CallExpr) ([]*Term, []types.Type) {
 				}
 				return []*Term{Le(V(name, "Int"), v)}, []types.Type{types.Typ[types.Bool]}
 			}
+		case "allocated":
+			if l.spec {
+				v, _ := l.tr(ce.Args[0])
+				l.f.declare("$alloc", "Int")
+				name := "$alloc"
+				if l.oldRename != nil {
+					name = l.oldRename("$alloc")
+					l.f.declare(name, "Int")
+				}
+				return []*Term{And(Lt(IntLit(0), v), Lt(v, V(name, "Int")))}, []types.Type{types.Typ[types.Bool]}
+			}
 		case "lockheld":
 			if l.spec {
 				sel, ok := ast.Unparen(ce.Args[0]).(*ast.SelectorExpr)
@@ -709,55 +720,51 @@ func (l *Lowerer) appendCall(ce *ast.CallExpr) ([]*Term, []types.Type) {
 	sl := st.Underlying().(*types.Slice)
 	r := l.p.reg
 	ss := l.p.sortOf(st)
-	res := l.tmp(ss)
-	l.havoc(res, ss)
-	rv := V(res, ss)
-	var conj []*Term
+	es := l.p.sortOf(sl.Elem())
+	as := arraySort("Int", es)
+	// the result is represented with offset 0 over a new array that agrees with s on the old prefix
+	// (A-slice-alias: sharing of the backing array with s is not modelled)
+	base := l.tmp(as)
+	l.havoc(base, as)
+	bt := V(base, as)
+	capv := l.tmp("Int")
+	l.havoc(capv, "Int")
 	n := r.sLen(s)
+	l.quantN++
+	bv := &Term{Op: "bound", Name: fmt.Sprintf("ai!%d", l.quantN), Sort: "Int"}
+	l.assume(&Term{Op: "forall", Sort: "Bool", Args: []*Term{bv,
+		Implies(And(Le(IntLit(0), bv), Lt(bv, n)), Eq(Select(bt, bv), r.sIndex(s, bv)))}})
+	var newLen *Term
+	cur := bt
 	if ce.Ellipsis.IsValid() {
-		x, xt := l.tr(ce.Args[1])
+		x, _ := l.tr(ce.Args[1])
 		var xlen *Term
 		if x.Sort == "Str" {
 			xlen = App("strlen", "Int", x)
 		} else {
 			xlen = r.sLen(x)
 		}
-		_ = xt
-		conj = append(conj, Eq(r.sLen(rv), Add(n, xlen)))
-		// prefix preserved, suffix equals x (quantified)
-		l.quantN++
-		bv := &Term{Op: "bound", Name: fmt.Sprintf("ai!%d", l.quantN), Sort: "Int"}
-		pre := &Term{Op: "forall", Sort: "Bool", Args: []*Term{bv, Implies(And(Le(IntLit(0), bv), Lt(bv, n)), Eq(r.sIndex(rv, bv), r.sIndex(s, bv)))}}
-		conj = append(conj, pre)
+		newLen = Add(n, xlen)
 		if x.Sort != "Str" {
 			l.quantN++
 			bv2 := &Term{Op: "bound", Name: fmt.Sprintf("ai!%d", l.quantN), Sort: "Int"}
-			suf := &Term{Op: "forall", Sort: "Bool", Args: []*Term{bv2, Implies(And(Le(IntLit(0), bv2), Lt(bv2, xlen)), Eq(r.sIndex(rv, Add(n, bv2)), r.sIndex(x, bv2)))}}
-			conj = append(conj, suf)
+			l.assume(&Term{Op: "forall", Sort: "Bool", Args: []*Term{bv2,
+				Implies(And(Le(IntLit(0), bv2), Lt(bv2, xlen)), Eq(Select(bt, Add(n, bv2)), r.sIndex(x, bv2)))}})
 		}
 	} else {
 		k := len(ce.Args) - 1
-		conj = append(conj, Eq(r.sLen(rv), Add(n, IntLit(int64(k)))))
-		// constructive: result array = stores on some array agreeing with s on the prefix
-		arr := l.tmp(arraySort("Int", l.p.sortOf(sl.Elem())))
-		l.havoc(arr, arraySort("Int", l.p.sortOf(sl.Elem())))
-		at := V(arr, arraySort("Int", l.p.sortOf(sl.Elem())))
-		l.quantN++
-		bv := &Term{Op: "bound", Name: fmt.Sprintf("ai!%d", l.quantN), Sort: "Int"}
-		conj = append(conj, &Term{Op: "forall", Sort: "Bool", Args: []*Term{bv,
-			Implies(And(Le(IntLit(0), bv), Lt(bv, n)), Eq(Select(at, Add(r.sOff(rv), bv)), r.sIndex(s, bv)))}})
-		cur := at
+		newLen = Add(n, IntLit(int64(k)))
 		for i, a := range ce.Args[1:] {
 			v, vt := l.tr(a)
 			v = l.convertTo(v, vt, sl.Elem())
-			cur = Store(cur, Add(r.sOff(rv), Add(n, IntLit(int64(i)))), v)
+			cur = Store(cur, Add(n, IntLit(int64(i))), v)
 		}
-		conj = append(conj, Eq(r.sArr(rv), cur))
 	}
-	conj = append(conj, Le(r.sLen(rv), r.sCap(rv)), Le(IntLit(0), r.sOff(rv)), Le(IntLit(0), r.sLen(rv)))
-	conj = append(conj, Implies(r.sNil(rv), Eq(r.sLen(rv), IntLit(0))))
-	conj = append(conj, Implies(Lt(IntLit(0), r.sLen(rv)), Not(r.sNil(rv))))
-	l.assume(And(conj...))
+	lenv := l.tmp("Int")
+	l.assign(lenv, "Int", newLen)
+	l.assume(And(Le(V(lenv, "Int"), V(capv, "Int")), Le(V(capv, "Int"), IntPow2(56))))
+	isnil := And(r.sNil(s), Eq(V(lenv, "Int"), IntLit(0)))
+	rv := r.sMk(ss, cur, IntLit(0), V(lenv, "Int"), V(capv, "Int"), isnil)
 	return []*Term{rv}, []types.Type{st}
 }
 
